@@ -2,8 +2,13 @@
    LemmasViewer / LemmasViewer2 : the viewer mirrors the collection (part 1)
    LemmasBlocks                 : the block-aware executable run_d; guarded theorem and refutation inside blocks
    LemmasPicker                 : attribute pickers and dataset pickers (parts 2-3)
-   LemmasAxes                   : image viewer axes (part 4) *)
-From GV Require Export C18.Model C18.LemmasPicker C18.LemmasViewer C18.LemmasViewer2 C18.LemmasBlocks C18.LemmasAxes.
+   LemmasAxes                   : image viewer axes (part 4)
+   GenEquiv1 .. GenEquiv4, GenEquiv : the functions translated from viewer.py / layer_artist.py (coq/gen/Gen_viewer.v) against
+                                  the hand model (part 5)
+   GenPicker                    : the functions translated from data_combo_helper.py (coq/gen/Gen_picker.v) against part 2 (part 6)
+   GenDPicker                   : the translated dataset pickers against part 3 (part 7) *)
+From GV Require Export C18.Model C18.LemmasPicker C18.LemmasViewer C18.LemmasViewer2 C18.LemmasBlocks C18.LemmasAxes
+                       C18.GenEquiv1 C18.GenEquiv2 C18.GenEquiv3 C18.GenEquiv4 C18.GenEquiv C18.GenUpdate C18.GenPicker C18.GenDPicker.
 
 Definition viewer_inv_reachable := LemmasBlocks.viewer_inv_reachable.
 Definition viewer_inv_reachable_plain := LemmasViewer2.viewer_inv_reachable.
@@ -11,3 +16,14 @@ Definition viewer_blocks_refuted := LemmasBlocks.viewer_blocks_refuted.
 Definition picker_inv_reachable := LemmasPicker.picker_inv_reachable.
 Definition dpicker_inv_reachable := LemmasPicker.dpicker_inv_reachable.
 Definition image_axes_distinct := LemmasAxes.image_axes_distinct.
+Definition gen_step_refines := GenEquiv.gen_step_refines.
+Definition gen_sync_idle := GenEquiv.gen_sync_idle.
+Definition gen_viewer_inv_reachable := GenEquiv.gen_viewer_inv_reachable.
+Definition gen_picker_step_refines := GenPicker.gen_picker_step_refines.
+Definition gen_picker_inv_reachable := GenPicker.gen_picker_inv_reachable.
+Definition gen_refresh_attrs := GenPicker.gen_refresh_attrs.
+Definition gen_picker_procs := GenPicker.gen_picker_procs.
+Definition gen_dpicker_step_refines := GenDPicker.gen_dpicker_step_refines.
+Definition gen_dpicker_inv_reachable := GenDPicker.gen_dpicker_inv_reachable.
+Definition gen_update_subset_spec := GenUpdate.gen_update_subset_spec.
+Definition gen_update_data_spec := GenUpdate.gen_update_data_spec.
